@@ -27,7 +27,7 @@ EXPLANATION = ("add and pop_used are path-enumerated (loop-containing helpers ke
                "paths are checked effect-free; the capacity predicate is folded over all (SIZE<=16, in-use, #inputs, #outputs, "
                "indirect) combinations against the specification predicate; the consumption path is checked for order and "
                "provenance; free-running indices are checked for wrapping-only arithmetic in every queue function.")
-FLOORS = {'free_queries': 1, 'add_paths': 2, 'pop_paths': 2, 'capacity_rows': 1000, 'counter_ops': 2}
+FLOORS = {'used_ring_reads': 2, 'free_queries': 1, 'add_paths': 2, 'pop_paths': 2, 'capacity_rows': 1000, 'counter_ops': 2}
 
 
 def counters_rule(F, R, rule):
@@ -69,6 +69,7 @@ def run(F, R):
     e5_counters(F, R, M, tfield, lfield)
     R.count('relink_sites', e6_relink(F, R, M, pop_id))
     e7_available(F, R, M, add_id)
+    e2b_all_slots(F, R, M, lfield)
 
 
 def last_used_field(F, M, can_pop_id):
@@ -379,6 +380,33 @@ def e5_counters(F, R, M, tfield, lfield, rule='E5'):
                     nops += 1
                     R.held(rule, '%s:%s' % (b['id'], fn.rsplit('::', 1)[1]), site(sg, n), 'wrapping arithmetic on index')
     R.count('counter_ops', nops)
+
+
+def e2b_all_slots(F, R, M, lfield):
+    """Every read of a used-ring element anywhere in the queue API (peeking as well as popping) addresses the slot
+    (last-used index) & (SIZE-1): the completion that is looked at is always the oldest unconsumed one."""
+    n = 0
+    for b in queue_api_entry_points(F, M):
+        sg = supergraph(F, b['id'])
+        S = sg.sym
+        live = sg.live_nodes()
+        for a in device_accesses(sg, M):
+            if a.kind != 'load' or not a.area.startswith('used.ring') or a.node not in live:
+                continue
+            n += 1
+            idxs = [pp[1] for pp in a.loc[2] if pp[0] == 'idx']
+            good = False
+            for t in idxs:
+                t = strip_conv(t)
+                if t[0] == 'bin' and t[1] == 'BitAnd':
+                    x, y = strip_conv(t[2]), strip_conv(t[3])
+                    ctr_, mask = (x, y) if x[0] in ('load', 'load0') else (y, x)
+                    if ctr_[0] in ('load', 'load0') and ctr_[1][2] and ctr_[1][2][-1][1] == lfield and mask[0] == 'bin' and mask[1] == 'Sub' \
+                            and fold_const(mask[3]) == 1 and 'SIZE' in fmt(mask[2]):
+                        good = True
+            R.check(good, 'E2', '%s:%s:slot' % (b['id'], a.area), site(sg, a.node), 'used-ring element read at slot last_used & (SIZE-1)',
+                    'a used-ring element is read at index %s, not at (last-used index) & (SIZE-1)' % [fmt(t)[:80] for t in idxs])
+    R.count('used_ring_reads', n)
 
 
 def e7_available(F, R, M, add_id):
